@@ -890,10 +890,15 @@ package router
 //@   callsite AsyncWrite: [C03,C13:one-framed-write] len(arg1) >= 14 && len(arg1) - 2 <= 65535 && BE16(arg1, 0) == uint16(len(arg1) - 2)
 
 // ---- server_http_gohttp.go -------------------------------------------------------------------------------
+// listen: a stream listener on exactly the configured address - an abstract unix socket when it starts with "@",
+// tcp otherwise -, bound to the router's context; a listener or an error, never both.
 //@ func (r *router) listen(cfg *ServerConfig) (l net.Listener, err error)
-//@   trusted
+//@   props C17 C18
+//@   requires r != nil && cfg != nil
 //@   modifies nothing
 //@   ensures err == nil ==> l != nil
+//@   ensures [C18:listener-or-error] err != nil ==> l == nil
+//@   callsite Listen: [C17:listens-where-configured] arg3 == cfg.Listen && arg1 == r.ctx && arg2 == ((len(cfg.Listen) >= 1 && cfg.Listen[0] == '@') ? "unix" : "tcp")
 //@ func (r *router) subLoggerForServer(modName string, tag string) (l *zerolog.Logger)
 //@   trusted
 //@   modifies nothing
